@@ -5,6 +5,7 @@ import numpy as np
 from ..common import Report, pmap
 from ..e1 import E1Sink, gate, replay_case, vacuity_floor
 from ..explore import explore
+from ..optsweep import sweep_jobs
 from ..harness import execute
 
 PID = "C05"
@@ -63,6 +64,8 @@ def run(ctx):
                      opts={"max_fun_evals": 45, "noise_final_samples": 2, "tol_noise": 0.5}, script={"second": delta}, tol_noise_check=0.5)
             cells.append(j)
     st = explore(cells, [], 0, sink, stats=st, name="noise-test-cells")
+    sw = sweep_jobs(lambda D, m, o: job(D, "lin", m, o.pop("noise_final_samples", 1 if D == 1 else 3), 64, seeds[0], opts=o), q, modes=("auto", "decl", "spec"))
+    st = explore(sw, ["noise"], 0, sink, stats=st, name="option-variants")
     sink.finish_cov(st)
     rep.set("gate_jobs", ng)
     vacuity_floor(rep, sink, 150)
